@@ -164,6 +164,11 @@ func (c *EvalCtx) eval(e ast.Expr) Val {
 				return fe.loadHeap(c.st, typeName(sl.ElemT), sx("elemaddr", sl.Ref, i), sl.ElemT)
 			}
 		}
+		if sl, ok := base.(SliceV); ok && sl.ElemT != nil {
+			if _, isInt := intKindOf(sl.ElemT); isInt || isBool(sl.ElemT) {
+				return fe.elemLoad(sl, i, sl.ElemT)
+			}
+		}
 		fe.eng.noteUFun("elemlen", 2)
 		// abstract element: only its length is known
 		return SliceV{Ref: sx(sym("elemref"), termOf(base), i), Len: sx(sym("elemlen"), termOf(base), i), Cap: sx(sym("elemlen"), termOf(base), i)}
